@@ -599,6 +599,8 @@ def run(ctx):
         if e["op"] not in seen and len(seen) < 5 and e["op"] in ("rt", "contains", "trans", "box", "compat"):
             seen.add(e["op"])
             ctx.sample({"recipe": rc, "event": e})
+    if ctx.violations:
+        return              # the verdict is out; self-tests need an accepted batch
     # binding self-tests: a wrong answer of each family must be rejected
     def first(op, pred=lambda e: True):
         return next(e for i, e in enumerate(events) if e["op"] == op and (i + 1) in v.accepted and pred(e))
